@@ -1237,10 +1237,12 @@ func (t *tree) expect(expected itemType, context string) item {
 
 // unexpected complains about the token and terminates processing.
 func (t *tree) unexpected(token item, context string) {
+	// report the position of the offending token, which is not necessarily the
+	// token read last (the parser looks ahead).
 	if token.typ == itemError {
-		t.errorf("lexical error: %v", token)
+		t.errorfAt(token, "lexical error: %v", token)
 	}
-	t.errorf("unexpected %v in %s", token, context)
+	t.errorfAt(token, "unexpected %v in %s", token, context)
 }
 
 // errorf formats the error and terminates processing.
@@ -1250,6 +1252,12 @@ func (t *tree) errorf(format string, args ...interface{}) {
 	if t.peekCount > 0 {
 		tok = t.token[t.peekCount-1]
 	}
+	t.errorfAt(tok, format, args...)
+}
+
+// errorfAt formats the error, locating it at the given token, and terminates
+// processing.
+func (t *tree) errorfAt(tok item, format string, args ...interface{}) {
 	t.root = nil
 	format = fmt.Sprintf("template %s:%d:%d: %s", t.name,
 		t.lex.lineNumber(tok.pos), t.lex.columnNumber(tok.pos), format)
